@@ -98,7 +98,7 @@ func genC10(r *rand.Rand, tier string, env *Env) []Case {
 func init() {
 	oracles["c10.meaning"] = oracleC10
 	properties["C10"] = &Property{
-		ID: "C10", LeanMods: []string{"CrsProps.C10"},
+		ID: "C10", LeanMods: []string{"CrsProps.C10", "CrsProps.C10Gen"},
 		Corr: "K1 (directive regexps vs recognisers), K6 (processLine/processFile), K2 (Parse before/after)",
 		Rule: "assembly programs with disturbed directive spacing and indentation, and arbitrary line material (comment lines that look like directives, unbalanced markers, odd arguments); generate and parse compared before/after format, white-space-stripped line sequences compared; non-trivial = format changes the file; distinct by bytes",
 		Gen:  genC10, Escalate: escalateFormat,
